@@ -102,6 +102,7 @@ func (g *G) withClause() ([]Tok, *ast.WithClause) {
 			var cs [][]Tok
 			for j := 0; j < k; j++ {
 				c := g.pick(colPool, "ctecol")
+				g.Names.MaybeColumns[c.name] = true
 				cs = append(cs, sym(c.src))
 				cte.Columns = append(cte.Columns, c.name)
 			}
@@ -362,6 +363,7 @@ func (g *G) Select(small, tail bool) ([]Tok, *ast.SelectStatement) {
 						var ids []ast.Expression
 						for u := 0; u < k; u++ {
 							c := g.pick(colPool, "usingcol")
+							g.Names.Columns[c.name] = true
 							cs = append(cs, sym(c.src))
 							ids = append(ids, &ast.Identifier{Name: c.name})
 						}
@@ -490,6 +492,7 @@ func (g *G) Select(small, tail bool) ([]Tok, *ast.SelectStatement) {
 			}
 			if g.chance(30, "forof") {
 				tb := g.pick(tblPool[:4], "fortbl")
+				g.Names.MaybeTables[tb.name] = true
 				t = cat(t, g.kw("OF"), sym(tb.src))
 				fc.Tables = []string{tb.name}
 			}
